@@ -1,0 +1,90 @@
+//go:build verif
+
+// Contracts for the deductive verifier in /verif (govc). Only compiled with -tags verif.
+
+package osutil
+
+//@ func equalStrings
+//@   props C28
+//@   assigns nothing
+//@   nopanic
+//@   ensures result == (len(a) == len(b) && forall k int :: 0 <= k && k < len(a) ==> a[k] == b[k])
+//@   loop 0: invariant 0 <= i && i <= len(a) && len(a) == len(b)
+//@   loop 0: invariant forall k int :: 0 <= k && k < i ==> a[k] == b[k]
+
+//@ func (*MountEntry).OptBool
+//@   props C28
+//@   assigns nothing
+//@   ensures result == (exists k int :: 0 <= k && k < len(e.Options) && e.Options[k] == name)
+//@   loop 0: invariant -1 <= idx0 && idx0 < len(e.Options)
+//@   loop 0: invariant forall k int :: 0 <= k && k <= idx0 ==> e.Options[k] != name
+
+//@ func (*MountEntry).Equal
+//@   props C28
+//@   assigns nothing
+//@   ensures result == (e.Name == o.Name && e.Dir == o.Dir && e.Type == o.Type && e.DumpFrequency == o.DumpFrequency && e.CheckPassNumber == o.CheckPassNumber && len(e.Options) == len(o.Options) && forall k int :: 0 <= k && k < len(e.Options) ==> e.Options[k] == o.Options[k])
+
+//@ func (*MountEntry).OptStr
+//@   props C28
+//@   assigns nothing
+//@   ensures result1 == (exists k int :: 0 <= k && k < len(e.Options) && strings.HasPrefix(e.Options[k], name + "="))
+//@   ensures !result1 ==> result0 == ""
+//@   loop 0: invariant -1 <= idx0 && idx0 < len(e.Options)
+//@   loop 0: invariant forall k int :: 0 <= k && k <= idx0 ==> !strings.HasPrefix(e.Options[k], name + "=")
+
+// ---- the x-snapd.* accessors used by snap-update-ns ------------------------------------------
+
+//@ func (*MountEntry).XSnapdOrigin
+//@   props C28
+//@   assigns nothing
+//@   ensures result != "" ==> exists k int :: 0 <= k && k < len(e.Options) && strings.HasPrefix(e.Options[k], "x-snapd.origin" + "=")
+
+//@ func (*MountEntry).XSnapdSynthetic
+//@   props C28
+//@   assigns nothing
+//@   ensures result == (exists k int :: 0 <= k && k < len(e.Options) && e.Options[k] == "x-snapd.synthetic")
+
+//@ func (*MountEntry).XSnapdDetach
+//@   props C28
+//@   assigns nothing
+//@   ensures result == (exists k int :: 0 <= k && k < len(e.Options) && e.Options[k] == "x-snapd.detach")
+
+//@ func XSnapdDetach
+//@   props C28
+//@   ensures result == "x-snapd.detach"
+
+// ---- file system probes (I/O): assumed not to write program state --------------------
+
+//@ ghost dirExists(str) bool
+
+//@ func IsDirectory
+//@   trusted
+//@   assigns nothing
+//@   ensures result == dirExists(path)
+
+//@ func FileExists
+//@   trusted
+//@   assigns nothing
+
+//@ func IsSymlink
+//@   trusted
+//@   assigns nothing
+
+// ---- writing an entry and reading it back -----------------------------------------------------
+
+// escape/unescape are bound (*strings.Replacer).Replace values: the engine has no model of Replacer,
+// FieldsFunc, Join or Split, so only the layout of the line and the handling of the field count and
+// of the two numbers are stated here.
+
+//@ func (MountEntry).String
+//@   props C28
+//@   ensures [layout] result == final(name) + " " + final(dir) + " " + final(fsType) + " " + final(options) + " " + strconv.Itoa(e.DumpFrequency) + " " + strconv.Itoa(e.CheckPassNumber)
+//@   ensures [placeholders] (e.Name == "" ==> final(name) == "none") && (e.Dir == "" ==> final(dir) == "none") && (e.Type == "" ==> final(fsType) == "none") && (len(e.Options) == 0 ==> final(options) == "defaults")
+
+//@ func ParseMountEntry
+//@   props C28
+//@   nopanic
+//@   ensures [field-count] result1 == nil ==> 3 <= len(final(fields)) && len(final(fields)) <= 6
+//@   ensures [numbers] result1 == nil ==> (len(final(fields)) > 4 ==> atoiOK(final(fields)[4]) && result0.DumpFrequency == atoiVal(final(fields)[4])) && (len(final(fields)) > 5 ==> atoiOK(final(fields)[5]) && result0.CheckPassNumber == atoiVal(final(fields)[5]))
+//@   ensures [defaults] result1 == nil ==> (len(final(fields)) <= 4 ==> result0.DumpFrequency == 0) && (len(final(fields)) <= 5 ==> result0.CheckPassNumber == 0) && (len(final(fields)) <= 3 ==> len(result0.Options) == 0)
+//@   loop 0: invariant -1 <= idx0 && idx0 < len(fields) && fields == ranged0
